@@ -771,6 +771,29 @@ fn tight_backpressure(s: u64) -> StreamingDSTConfig {
     c
 }
 
+/// A tracing subscriber that is interested in everything and keeps nothing (events are counted so that the evidence can say
+/// the harnesses really logged while it listened).
+#[derive(Default)]
+struct ListenToEverything {
+    next: std::sync::atomic::AtomicU64,
+}
+static EVENTS_HEARD: std::sync::atomic::AtomicU64 = std::sync::atomic::AtomicU64::new(0);
+impl tracing::Subscriber for ListenToEverything {
+    fn enabled(&self, _: &tracing::Metadata<'_>) -> bool {
+        true
+    }
+    fn new_span(&self, _: &tracing::span::Attributes<'_>) -> tracing::span::Id {
+        tracing::span::Id::from_u64(1 + self.next.fetch_add(1, std::sync::atomic::Ordering::Relaxed))
+    }
+    fn record(&self, _: &tracing::span::Id, _: &tracing::span::Record<'_>) {}
+    fn record_follows_from(&self, _: &tracing::span::Id, _: &tracing::span::Id) {}
+    fn event(&self, _: &tracing::Event<'_>) {
+        EVENTS_HEARD.fetch_add(1, std::sync::atomic::Ordering::Relaxed);
+    }
+    fn enter(&self, _: &tracing::span::Id) {}
+    fn exit(&self, _: &tracing::span::Id) {}
+}
+
 fn paced_dump(h: &str, p: &str, s: u64, ops: u64, pause_ms: u64) -> String {
     let n = ops as usize;
     // pauses early in the run (few segments, first compactions) and in the middle
@@ -1017,6 +1040,34 @@ fn eval_case(rep: &mut Report, c: &Case, reruns: usize, children: usize, probes_
             rep.count("host_memory_relation_skipped_process_already_large");
         }
     }
+    // ambient log level (a quarter of the seeds): the same run on a thread where a tracing subscriber listens at every level.
+    // What a harness logs is not part of its configuration: trace, state and verdict must not depend on who listens.
+    if c.s % 4 == 1 {
+        let (h, p, s, ops) = (c.h.clone(), c.p.clone(), c.s, c.ops);
+        let listened = std::thread::Builder::new()
+            .stack_size(32 << 20)
+            .spawn(move || tracing::subscriber::with_default(ListenToEverything::default(), || dump_text(&h, &p, s, ops)))
+            .expect("spawn")
+            .join()
+            .ok();
+        match listened {
+            Some(r) => {
+                rep.count("runs_with_a_tracing_subscriber_at_every_level");
+                rep.add("bytes_compared", base.len().min(r.0.len()) as u64);
+                if let Some((section, detail)) = first_diff(base, &r.0) {
+                    let mut w = c.json();
+                    w["relation"] = json!("ambient-log-level");
+                    w["section"] = json!(section);
+                    rep.violation(
+                        format!("C20|{}|result-depends-on-ambient-log-level", c.h),
+                        format!("preset {} seed {} ops {}: the same run differs when a tracing subscriber listens at TRACE level; first differing section `{}`, {}", c.p, c.s, c.ops, section, detail),
+                        w,
+                    );
+                }
+            }
+            None => rep.inconclusive(format!("runner thread died for the ambient-log-level relation of {:?}", c.json())),
+        }
+    }
     match &after_other {
         Some(r) => {
             rep.count("runs_after_a_different_run");
@@ -1137,6 +1188,7 @@ pub fn repro_leg(args: &Args) {
         RedisDSTSimulation/Streaming/Compaction/MultiNode/SimulationHarness/SimulatedConnection expose their own history; WalDSTHarness, run_partition_test and \
         PipelineSimulator expose only a result struct (compared on result alone)");
     rep.note(NOT_REACHED);
+    rep.add("tracing_events_heard_by_the_ambient_subscriber", EVENTS_HEARD.load(std::sync::atomic::Ordering::Relaxed));
     rep.finish(args);
 }
 
